@@ -241,23 +241,24 @@ static void o_C16_ops(Ctx &c, StringDictionary *d, const Model &M, const Cell &c
       if (id != i) { c.fail(after, "unusable_after_unsupported_op", fmt("locate(extract(%zu))=%zu afterwards", i, id)); return; }
     }
   };
-  strs qs;   // a few well-formed arguments: members, a prefix, an absent string
-  qs.push_back(M.S[0]); qs.push_back(M.S[n - 1]); qs.push_back(M.S[0].substr(0, 1));
-  for (auto &q : cell.Q) if (!M.rank(q)) { qs.push_back(q); break; }
-  if (!cap_prefix(c.kind)) for (auto &q : qs) {
+  // arbitrary well-formed arguments: the whole query universe (members, prefixes, absent and foreign strings, strings longer
+  // than every member) and two arguments far longer than the longest member.  The statement asks for a NULL iterator: an
+  // empty non-null iterator is reported as well (the caller cannot tell "not provided" from "no match").
+  strs qs = cell.Q;
+  qs.push_back(M.S[n - 1] + M.S[n - 1] + M.S[0]);
+  qs.push_back(str(M.maxlen() + 300, M.S[0][0]));
+  if (!cap_prefix(c.kind)) { for (auto &q : qs) {
     IdList r = x_locatePrefix(c, d, q, cap);
-    if (!r.threw && !r.null && !r.ids.empty()) c.fail("locatePrefix", "fabricated_answer", fmt("unsupported op produced %zu IDs", r.ids.size()), q);
+    if (!r.threw && !r.null) c.fail("locatePrefix", r.ids.empty() ? "non_null_iterator" : "fabricated_answer", fmt("unsupported op returned an iterator with %zu IDs", r.ids.size()), q);
     StrList s = x_extractPrefix(c, d, q, cap);
-    if (!s.threw && !s.null && !s.v.empty()) c.fail("extractPrefix", "fabricated_answer", fmt("unsupported op produced %zu strings", s.v.size()), q);
-    usable("locatePrefix");
-  }
-  if (!cap_substr(c.kind, c.p)) for (auto &q : qs) {
+    if (!s.threw && !s.null) c.fail("extractPrefix", s.v.empty() ? "non_null_iterator" : "fabricated_answer", fmt("unsupported op returned an iterator with %zu strings", s.v.size()), q);
+  } usable("locatePrefix"); }
+  if (!cap_substr(c.kind, c.p)) { for (auto &q : qs) {
     IdList r = x_locateSubstr(c, d, q, cap);
-    if (!r.threw && !r.null && !r.ids.empty()) c.fail("locateSubstr", "fabricated_answer", fmt("unsupported op produced %zu IDs", r.ids.size()), q);
+    if (!r.threw && !r.null) c.fail("locateSubstr", r.ids.empty() ? "non_null_iterator" : "fabricated_answer", fmt("unsupported op returned an iterator with %zu IDs", r.ids.size()), q);
     StrList s = x_extractSubstr(c, d, q, cap);
-    if (!s.threw && !s.null && !s.v.empty()) c.fail("extractSubstr", "fabricated_answer", fmt("unsupported op produced %zu strings", s.v.size()), q);
-    usable("locateSubstr");
-  }
+    if (!s.threw && !s.null) c.fail("extractSubstr", s.v.empty() ? "non_null_iterator" : "fabricated_answer", fmt("unsupported op returned an iterator with %zu strings", s.v.size()), q);
+  } usable("locateSubstr"); }
   if (!cap_rank(c.kind)) for (size_t k : {(size_t)1, n, n + 1, (size_t)0}) {
     long r = x_locateRank(c, d, k);
     if (r != 0 && r != -2) c.fail("locateRank", "fabricated_answer", fmt("unsupported locateRank(%zu)=%ld", k, r));
@@ -267,7 +268,7 @@ static void o_C16_ops(Ctx &c, StringDictionary *d, const Model &M, const Cell &c
   }
   if (!cap_table(c.kind)) {
     StrList t = x_extractTable(c, d, cap);
-    if (!t.threw && !t.null && !t.v.empty()) c.fail("extractTable", "fabricated_answer", fmt("unsupported table scan produced %zu strings", t.v.size()));
+    if (!t.threw && !t.null) c.fail("extractTable", t.v.empty() ? "non_null_iterator" : "fabricated_answer", fmt("unsupported table scan returned an iterator with %zu strings", t.v.size()));
     usable("extractTable");
   }
 }
